@@ -157,6 +157,17 @@ PROPS["C10"] = dict(level="exploration",
                  essential={"C10": ["C10.picks", "C10.placed", "C10.swaps-completed", "C10.overlap:callback||pick", "C10.overlap:callback||done", "C10.overlap:pick||done", "C10.overlap:done||done", "C10.overlap:pick||pick"]},
                  timeout=dict(quick=900, thorough=7200), crash_props=["C10"])])
 
+def stress_stage(prop_essential):
+    return dict(name="poolstress", engine="stress", test="TestVerifPoolStress", batches=dict(quick=6, thorough=16),
+                essential=prop_essential, timeout=dict(quick=900, thorough=7200))
+
+PROPS["C02"]["stages"].append(stress_stage({"C02": ["C02.stress-quiescent-zero", "stress.placed"]}))
+PROPS["C03"]["stages"].append(stress_stage({"C03": ["C03.toctou-grow", "C03.stress-max"]}))
+PROPS["C09"]["stages"].append(stress_stage({"C09": ["C09.stress-exact", "C09.stress-bind-picks"]}))
+for _p in ("C02", "C03", "C09"):
+    PROPS[_p]["assumptions"] = PROPS[_p]["assumptions"] + ["poolstress stage: real goroutines (1 serialized callback goroutine, 12 pick goroutines, 5 completer goroutines), yield-site schedule perturbation; invariants are read at quiescence / under the balancer's own lock"]
+    PROPS[_p]["rule"] += "; poolstress stage: concurrent executions (distinct = configuration and run index)"
+
 NOT_APPLICABLE = {}
 
 _POOL_NOTE = ("Trusted: the harness's shadow of the contract, the fake ClientConn/SubConn (gRPC 1.56 calling discipline), the build-time "
